@@ -117,7 +117,7 @@ var addCmd = &cobra.Command{
 			}
 
 			// directory
-			if f, err := os.Stat(arg); !os.IsNotExist(err) && f.IsDir() {
+			if f, err := os.Stat(arg); err == nil && f.IsDir() {
 				// get file paths except for the ignored paths such as .goit
 				filePaths, err := file.GetFilePathsUnderDirectoryWithIgnore(cleanedArg, client.Idx, client.Ignore)
 				if err != nil {
